@@ -80,6 +80,22 @@ fn ty_shape<'tcx>(tcx: TyCtxt<'tcx>, t: Ty<'tcx>, depth: usize) -> J {
     }
 }
 
+/// read a (pointer, length) pair stored at `off` in `a`
+fn read_fat<'tcx>(
+    _tcx: TyCtxt<'tcx>,
+    a: &rustc_middle::mir::interpret::Allocation,
+    off: usize,
+) -> Option<(rustc_middle::mir::interpret::AllocId, usize, usize)> {
+    if off + 16 > a.len() {
+        return None;
+    }
+    let prov = a.provenance().ptrs().get(&rustc_abi::Size::from_bytes(off as u64))?;
+    let raw = a.inspect_with_uninit_and_ptr_outside_interpreter(off..off + 16);
+    let rel = u64::from_le_bytes(raw[0..8].try_into().ok()?) as usize;
+    let len = u64::from_le_bytes(raw[8..16].try_into().ok()?) as usize;
+    Some((prov.alloc_id(), rel, len))
+}
+
 struct Cx<'tcx> {
     tcx: TyCtxt<'tcx>,
 }
@@ -262,8 +278,26 @@ impl<'tcx> Cx<'tcx> {
                     } else {
                         o = o.fi("bits", bits as i128);
                     }
-                } else {
+                } else if let rustc_middle::mir::interpret::Scalar::Ptr(ptr, _) = s {
                     o = o.fs("ptr", "scalar-ptr");
+                    let (prov, off) = ptr.prov_and_relative_offset();
+                    if let ty::Ref(_, inner, _) = ty.kind() {
+                        if let ty::Array(et, n) = inner.kind() {
+                            if *et == tcx.types.u8 {
+                                if let rustc_middle::mir::interpret::GlobalAlloc::Memory(alloc) =
+                                    tcx.global_alloc(prov.alloc_id())
+                                {
+                                    let a = alloc.inner();
+                                    let len = n.try_to_target_usize(tcx).unwrap_or(0) as usize;
+                                    let off = off.bytes() as usize;
+                                    if a.provenance().ptrs().is_empty() && off + len <= a.len() {
+                                        let bytes = a.inspect_with_uninit_and_ptr_outside_interpreter(off..off + len);
+                                        o = o.f("bytes", J::Arr(bytes.iter().map(|b| J::Int(*b as i128)).collect()));
+                                    }
+                                }
+                            }
+                        }
+                    }
                 }
             }
             ConstValue::ZeroSized => {
@@ -291,6 +325,36 @@ impl<'tcx> Cx<'tcx> {
                         if *et == tcx.types.u8 && a.provenance().ptrs().is_empty() {
                             let bytes = a.inspect_with_uninit_and_ptr_outside_interpreter(off..a.len());
                             o = o.f("bytes", J::Arr(bytes.iter().map(|b| J::Int(*b as i128)).collect()));
+                        }
+                    }
+                    // fat pointers stored in memory: &[u8] and &[&str]
+                    if let ty::Ref(_, inner, _) = ty.kind() {
+                        if let ty::Slice(et) = inner.kind() {
+                            if let Some((tid, toff, len)) = read_fat(tcx, a, off) {
+                                if let rustc_middle::mir::interpret::GlobalAlloc::Memory(t) = tcx.global_alloc(tid) {
+                                    let ta = t.inner();
+                                    if *et == tcx.types.u8 && toff + len <= ta.len() {
+                                        let bytes = ta.inspect_with_uninit_and_ptr_outside_interpreter(toff..toff + len);
+                                        o = o.f("bytes", J::Arr(bytes.iter().map(|b| J::Int(*b as i128)).collect()));
+                                    } else if let ty::Ref(_, e2, _) = et.kind() {
+                                        if e2.is_str() {
+                                            let mut strs = Vec::new();
+                                            for i in 0..len {
+                                                if let Some((sid, soff, slen)) = read_fat(tcx, ta, toff + 16 * i) {
+                                                    if let rustc_middle::mir::interpret::GlobalAlloc::Memory(sa) = tcx.global_alloc(sid) {
+                                                        let sa = sa.inner();
+                                                        if soff + slen <= sa.len() {
+                                                            let b = sa.inspect_with_uninit_and_ptr_outside_interpreter(soff..soff + slen);
+                                                            strs.push(J::s(String::from_utf8_lossy(b).to_string()));
+                                                        }
+                                                    }
+                                                }
+                                            }
+                                            o = o.f("strs", J::Arr(strs));
+                                        }
+                                    }
+                                }
+                            }
                         }
                     }
                     o = o.fb("indirect", true);
